@@ -22,6 +22,7 @@ type op struct {
 	Dir int    `json:"dir"`           // bridge: sending endpoint (0: conn0->conn1); dpipe: endpoint index
 	N   int    `json:"n,omitempty"`   // length / count
 	Off int    `json:"off,omitempty"` // Drop offset
+	Via int    `json:"via,omitempty"` // bridge write: 1 = injected with the exported Bridge.Push instead of the endpoint's Write; 2 = Write(nil) for an empty message
 	DLus int   `json:"dlUs,omitempty"` // bridge write: a write deadline this many microseconds ahead is set first (it may pass while the write is paced)
 }
 
@@ -78,7 +79,13 @@ func gen(r *harn.Rng, tier string) interface{} {
 		}
 		switch {
 		case x < 55:
-			sc.Ops = append(sc.Ops, op{K: "w", Dir: d, N: r.Pick(4, 4, 5, 16, 100, 1200, 4, 16, 100, 0), DLus: r.Pick(0, 0, 0, 0, 0, 0, 1, 10, 50, 100)})
+			wop := op{K: "w", Dir: d, N: r.Pick(4, 4, 5, 16, 100, 1200, 4, 16, 100, 0), DLus: r.Pick(0, 0, 0, 0, 0, 0, 1, 10, 50, 100)}
+			if r.Bool(0.12) {
+				wop.Via, wop.DLus = 1, 0
+			} else if wop.N == 0 && r.Bool(0.5) {
+				wop.Via = 2
+			}
+			sc.Ops = append(sc.Ops, wop)
 			switch {
 			case lossOn:
 			case pendDrop[d] > 0:
@@ -116,7 +123,7 @@ func gen(r *harn.Rng, tier string) interface{} {
 		case x < 85:
 			sc.Ops = append(sc.Ops, op{K: "reorder", Dir: d})
 		case x < 89:
-			sc.Ops = append(sc.Ops, op{K: "filter", Dir: d, N: r.Pick(0, 1, 2)})
+			sc.Ops = append(sc.Ops, op{K: "filter", Dir: d, N: r.Pick(0, 1, 2, 3)})
 		case x < 91 && pendReo[d] == 0 && pendDrop[d] == 0:
 			if r.Bool(0.5) {
 				// loss switched on and off again without a write in between: nothing may be lost afterwards
@@ -160,13 +167,18 @@ func msg(id uint32, n int) []byte {
 	return b
 }
 
-// filter predicates by number: 0 = none, 1 = pass even ids, 2 = pass length <= 16
+// filter predicates by number: 0 = none, 1 = pass even ids, 2 = pass length <= 16, 3 = pass every odd call
 func pred(kind int) func([]byte) bool {
 	switch kind {
 	case 1:
 		return func(b []byte) bool { return len(b) >= 4 && binary.BigEndian.Uint32(b)%2 == 0 }
 	case 2:
 		return func(b []byte) bool { return len(b) <= 16 }
+	case 3:
+		// a counting filter (the usual "lose every second packet" of protocol tests): it is
+		// consulted once for each message that gets as far as the filter
+		calls := 0
+		return func(b []byte) bool { calls++; return calls%2 == 1 }
 	}
 	return nil
 }
@@ -269,7 +281,23 @@ func runBridge(env *simrt.Env, sc *scenario) {
 			if o.DLus > 0 {
 				_ = conns[d].SetWriteDeadline(env.Now().Add(time.Duration(o.DLus) * time.Microsecond))
 			}
-			n, err := conns[d].Write(cp)
+			var n int
+			var err error
+			switch {
+			case o.Via == 1 && !lossAll:
+				// injected directly: the same scripted impairments apply
+				if !br.Push(cp, d) {
+					env.Fail("C18/bridge-write-failed", "op %d: Push for endpoint %d reported a closed bridge", i, d)
+					return
+				}
+				n = len(cp)
+				env.Probe("direct-push")
+			case o.Via == 2 && len(b) == 0:
+				n, err = conns[d].Write(nil)
+				env.Probe("nil-write")
+			default:
+				n, err = conns[d].Write(cp)
+			}
 			if o.DLus > 0 {
 				_ = conns[d].SetWriteDeadline(time.Time{})
 			}
